@@ -274,7 +274,7 @@ def run(ctx):
     clis = gen_cli(ctx)
     bjobs = [dict(op="board", args=enc([s, L, W, p, m, fd]), limit=60) for (s, L, W, p, m, fd) in boards]
     jobs = bjobs + [dict(op="call", module="roberta_generator", func="check_input", args=enc(list(c))) for c in checks]
-    jobs += [dict(op="gen_cli", argv=cli_of(c, fd), limit=60) for c, fd in clis]
+    jobs += [dict(op="gen_cli", argv=cli_of(c, fd), limit=60, bare=accepted(*c) is not None) for c, fd in clis]
     jobs.append(dict(op="gen_cli", argv=["-m", "1023"], limit=60))
     res = impl.run_cases(jobs, limit=30, tag="c15")
     res2 = impl.run_cases(list(reversed(bjobs)), limit=30, tag="c15b")[::-1]   # separate worker processes
